@@ -2,5 +2,5 @@ From Coq Require Import Extraction ExtrOcamlBasic ZArith NArith.
 From Elk Require Import Model.C01_Core.
 Extraction Language OCaml.
 Extraction Blacklist List String Int.  (* keep OCaml Stdlib.List visible to ocaml/common/zio.ml *)
-Separate Extraction run wt no_narrowed_local_assigned_in_closure_or_loop mk_ty elk_run e_new
+Separate Extraction run wt no_narrowed_local_assigned_in_closure_or_loop mk_ty elk_run elk_step e_new
   Z.to_N N.add Z.of_nat Z.to_nat.
